@@ -1,5 +1,5 @@
 /*
-	Package roi implements DVID support for Region-Of-Interest operations.
+Package roi implements DVID support for Region-Of-Interest operations.
 */
 package roi
 
@@ -1061,16 +1061,28 @@ func (d *Data) addSubvolumes(layer *layerT, subvolumes *subvolumesT, batchsize i
 				if found && merge {
 					// MinCorner stays same since we are extended in X
 					if holeBeg-1 >= begX {
-						lastI := len(subvolumes.Subvolumes) - 1
-						subvolume := subvolumes.Subvolumes[lastI]
 						lastCorner := dvid.ChunkPoint3d{holeBeg - 1, endY, layer.maxZ}
-						subvolume.MaxPoint = lastCorner.MinPoint(d.BlockSize).(dvid.Point3d)
-						subvolume.MaxChunk = lastCorner
 						numTotal = totalBlocks(minCorner, lastCorner)
 						numActive = findActives(actives, begX, holeBeg-1)
-						subvolume.TotalBlocks += numTotal
-						subvolume.ActiveBlocks += numActive
-						subvolumes.Subvolumes[lastI] = subvolume
+						if lastI := len(subvolumes.Subvolumes) - 1; lastI >= 0 {
+							subvolume := subvolumes.Subvolumes[lastI]
+							subvolume.MaxPoint = lastCorner.MinPoint(d.BlockSize).(dvid.Point3d)
+							subvolume.MaxChunk = lastCorner
+							subvolume.TotalBlocks += numTotal
+							subvolume.ActiveBlocks += numActive
+							subvolumes.Subvolumes[lastI] = subvolume
+						} else {
+							// there is no earlier subvolume to extend: the blocks before the hole start one
+							subvolumes.Subvolumes = append(subvolumes.Subvolumes, subvolumeT{
+								Extents3d: dvid.Extents3d{
+									minCorner.MinPoint(d.BlockSize).(dvid.Point3d),
+									lastCorner.MaxPoint(d.BlockSize).(dvid.Point3d),
+								},
+								ChunkExtents3d: dvid.ChunkExtents3d{minCorner, lastCorner},
+								TotalBlocks:    numTotal,
+								ActiveBlocks:   numActive,
+							})
+						}
 					}
 					begX = holeEnd + 1
 				} else {
